@@ -42,6 +42,10 @@ fn main() {
                     let mut t = line.split(' ');
                     let kind = t.next().unwrap_or("silent");
                     let chunks: Vec<Vec<u8>> = t.filter(|x| !x.is_empty()).map(unhex).collect();
+                    if kind == "late-reply" {
+                        // the caller will have given up by the time this reply is written
+                        std::thread::sleep(std::time::Duration::from_millis(400));
+                    }
                     if out_open {
                         let mut so = std::io::stdout();
                         for c in &chunks {
